@@ -330,11 +330,11 @@ def gen_case(rng, mode=None, nparts=None, divs=None, **o):
     pool = [ts for ts in TS_POOL if all((Fraction(4 * ts[0], ts[1]) * dv).denominator == 1 for dv in divs)]
     ts = rng.choice(pool)
     blen = Fraction(4 * ts[0], ts[1])
-    nb = rng.choice([1, 1, 2, 2, 3])
+    nb = 1 if o.get("small") else rng.choice([1, 1, 2, 2, 3])
     bars = [(blen * i, blen * (i + 1)) for i in range(nb)]
     parts = []
     for i, dv in enumerate(divs):
-        maxv = o.get("maxv", 4)
+        maxv = o.get("maxv", 2 if o.get("small") else 4)
         nv = rng.randint(1, maxv)
         voices = sorted(rng.sample(range(1, maxv + 1 + (rng.random() < 0.3)), nv))
         staves = rng.randint(1, 3)
@@ -351,9 +351,11 @@ def gen_case(rng, mode=None, nparts=None, divs=None, **o):
     if o.get("shape_kind"):
         leaves = [["P", i] for i in range(n)]
         rng.shuffle(leaves)
-        d["arg"] = {"score": o["shape_kind"] == "score", "shape": ["many", leaves]}
+        d["arg"] = {"score": o["shape_kind"] in ("score", "score_group"), "shape": ["many", leaves]}
         if o["shape_kind"] == "tuple":
             d["arg"]["tuple"] = True
+        if o["shape_kind"] == "score_group":
+            d["arg"]["shape"] = ["one", ["G", leaves]]
     return d
 
 
@@ -384,11 +386,15 @@ def add_history(rng, d, force=None, nsteps=None, first=False):
     for step in range(nsteps or rng.choice([1, 1, 2, 3])):
         early = order[:-1] if len(order) > 1 else order
         pi = order[0] if first else rng.choice(early) if rng.random() < 0.75 else rng.choice(order)
-        if force or rng.random() < 0.85:
+        if force:
+            # every cheap view, so that whichever of them leaves a memo behind has done so before the edit
+            edits += [["read", pi, kind] for kind in ("staves", "clef_map", "xml", "na")]
+        elif rng.random() < 0.85:
             edits.append(["read", pi, rng.choice(READS)])
         kind = force or rng.choice(EDIT_KINDS)
         k = rng.randrange(0, 1000)
-        up = rng.choice([["max", 1], ["max", 1], ["max", 2], ["max", 3]])
+        # (highest + 1 is the number the next part starts from: a count that misses the edit makes the two collide)
+        up = ["max", 1] if force else rng.choice([["max", 1], ["max", 1], ["max", 1], ["max", 2], ["max", 3]])
         if kind in ("staff", "xstaff"):
             edits.append([kind, pi, k, up if force else rng.choice([up, up, up, 1, rng.randint(1, 4)])])
         elif kind == "nostaff":
@@ -421,18 +427,22 @@ def add_score_ops(rng, d, kinds=None):
       ["setitem", i, k]   score[i] = part k          ["assign", [k ...]]  score.parts = [those parts]
       ["append", k]       score.parts.append(part k) ["pop", i]  ["reverse"]   (list operations on score.parts)
       ["read"]            score.note_array()
+      ["grow", k]         part k is appended to the children of the first group the score was built from (the list
+                          `score.parts` stays as it is: the part is not one of "the parts of the score")
       ["unfold", "max" | "min"]   score = unfold_part_maximal(score) / unfold_part_minimal(score)   (last step only)"""
     arg = d["arg"]
     cur = flat_order(arg)
     allp = list(range(len(d["parts"])))
     ops = []
     todo = list(kinds) if kinds else [rng.choice(["setitem", "setitem", "setitem", "assign", "assign", "append", "pop",
-                                                  "reverse", "unfold", "unfold"]) for _ in range(rng.choice([1, 1, 2, 3]))]
+                                                  "reverse", "unfold", "unfold", "grow"]) for _ in range(rng.choice([1, 1, 2, 3]))]
     for kind in todo:
         out = [k for k in allp if k not in cur]
         if rng.random() < 0.3:
             ops.append(["read"])
-        if kind == "setitem" and out and cur:
+        if kind == "grow" and out:
+            ops.append(["grow", rng.choice(out)])
+        elif kind == "setitem" and out and cur:
             i = rng.randrange(len(cur))
             k = rng.choice(out)
             ops.append(["setitem", i, k])
@@ -539,7 +549,7 @@ def _finding_registered(sig):
 
 
 def cases(rng, tier):
-    n = {"quick": 56, "thorough": 2000, "search": 5000}.get(tier, 56)
+    n = {"quick": 44, "thorough": 2000, "search": 5000}.get(tier, 44)
     # deterministic block: every class in every part, every mode; the division tuples of the property text
     for mode in MODES:
         yield gen_case(rng, mode, divs=[3, 4], allclasses=True)
@@ -566,16 +576,19 @@ def cases(rng, tier):
     # histories: a view of the first part is computed (number of staves, clef map, export ...), then the highest staff
     # / voice of that part is raised in place, then the parts are merged - in every mode, through every kind of edit
     for mode in MODES:
-        yield add_history(rng, gen_case(rng, mode, divs=[2, 3], shape_kind="list"), force="staff", nsteps=1, first=True)
-        yield add_history(rng, gen_case(rng, mode, divs=[4, 3]), force=rng.choice(["voice", "voiceall"]), nsteps=1, first=True)
-        yield add_history(rng, gen_case(rng, mode, divs=[2, 2, 3], end_only=True, p_refs=1.0), force="xstaff", nsteps=2)
+        yield add_history(rng, gen_case(rng, mode, divs=[2, 3], shape_kind="list", small=True), force="staff", nsteps=1, first=True)
+        # (no note carries a staff: every part is on staff 1, and the edited note is alone on staff 2)
+        yield add_history(rng, gen_case(rng, mode, divs=[3, 2], shape_kind="list", small=True, nostaff="all"), force="staff", nsteps=1, first=True)
+        yield add_history(rng, gen_case(rng, mode, divs=[4, 3], small=True), force=rng.choice(["voice", "voiceall"]), nsteps=1, first=True)
+        yield add_history(rng, gen_case(rng, mode, divs=[2, 2, 3], end_only=True, p_refs=1.0, small=True), force="xstaff", nsteps=2)
     for kind in ("nostaff", "pitch", "untie", "divs"):
-        yield add_history(rng, gen_case(rng, divs=[3, 4]), force=kind, nsteps=2)
+        yield add_history(rng, gen_case(rng, divs=[3, 4], small=True), force=kind, nsteps=2)
     # Score objects whose parts were replaced after construction, every kind of replacement once
     for kinds in (["setitem"], ["assign"], ["append"], ["pop"], ["reverse"], ["unfold"], ["setitem", "pop"], ["append", "unfold"]):
-        yield add_score_ops(rng, gen_case(rng, divs=[rng.choice([2, 4]), 3], spare=2, shape_kind="score"), kinds)
-    yield add_score_ops(rng, gen_case(rng, divs=[4, 6], spare=0, shape_kind="score"), ["pop"])   # one part is left
-    yield gen_case(rng, divs=[3, 4, 6], shape_kind="tuple")
+        yield add_score_ops(rng, gen_case(rng, divs=[rng.choice([2, 4]), 3], spare=2, shape_kind="score", small=True), kinds)
+    yield add_score_ops(rng, gen_case(rng, divs=[4, 6], spare=0, shape_kind="score", small=True), ["pop"])   # one part is left
+    yield add_score_ops(rng, gen_case(rng, divs=[2, 3], spare=1, shape_kind="score_group", small=True), ["grow"])
+    yield gen_case(rng, divs=[3, 4, 6], shape_kind="tuple", small=True)
     yield from file_cases(rng, tier)
     overflow = _finding_registered("auto-voice-overflow")
     for i in range(n):
@@ -591,7 +604,7 @@ def cases(rng, tier):
         elif r < 0.16 and overflow:
             c = gen_case(rng, "auto", maxv=7)
         elif r < 0.45:
-            c = gen_case(rng, spare=rng.choice([0, 1, 2]))
+            c = gen_case(rng, spare=rng.choice([0, 1, 2]), small=rng.random() < 0.6)
             if not c["arg"]["score"]:
                 c["arg"] = {"score": True, "shape": c["arg"]["shape"]}
             add_score_ops(rng, c)
@@ -773,6 +786,13 @@ def apply_score_ops(arg, spec, ops, parts, S):
         k = op[0]
         if k == "read":
             quiet(lambda: arg.note_array())
+            continue
+        if k == "grow":
+            # a part is added to the first group the score was built from: `score.parts` is not affected
+            gs = [g for g in arg.part_structure if isinstance(g, S.PartGroup)]
+            if gs:
+                gs[0].children.append(parts[op[1]])
+                parts[op[1]].parent = gs[0]
             continue
         if k == "unfold":
             u = (S.unfold_part_maximal if op[1] == "max" else S.unfold_part_minimal)(arg)
@@ -1293,6 +1313,11 @@ def oracle(d, parts, order, snap, res, res_elems, mode, fp_before, ref_rows, S, 
     if any(res is p for p in parts):
         fails.append("merged: an input part was returned for %d parts" % len(order))
         return fails
+    held = {id(e) for e in starting_objects(res)} | {id(e) for e in end_only_objects(res)}
+    strangers = [s for key, s in snap.items() if s["part"] not in order and key in held]
+    if strangers:
+        fails.append("notinput: the merged part holds %d objects of parts that are not among the parts of the argument at the "
+                     "time of the call (first: %s of part %s)" % (len(strangers), strangers[0]["name"], parts[strangers[0]["part"]].id))
     divs = [int(parts[i]._quarter_durations[0]) for i in order]
     L = math.lcm(*divs)
     qd = list(res._quarter_durations)
@@ -1322,10 +1347,6 @@ def oracle(d, parts, order, snap, res, res_elems, mode, fp_before, ref_rows, S, 
             fails.append("foreign: the merged part holds a %s that is in no input" % type(e).__name__)
     doc = doc_structural(S)
     first = order[0]
-    strangers = [s for key, s in snap.items() if s["part"] not in order and key in got]
-    if strangers:
-        fails.append("notinput: the merged part holds %d objects of parts that are not among the parts of the argument at the "
-                     "time of the call (first: %s of %s)" % (len(strangers), strangers[0]["name"], parts[strangers[0]["part"]].id))
     for key, s in snap.items():
         if s["part"] not in order:
             continue
@@ -1450,19 +1471,67 @@ def _prune_refs(pd):
         pd["fermatas"] = [i for i in pd["fermatas"] if i in ids]
 
 
+def final_order(spec):
+    """the parts a described argument holds at the call (None when a step replaces them by new objects: unfold)"""
+    cur = flat_order(spec)
+    for op in (spec.get("ops") or []) if spec.get("score") else []:
+        if op[0] == "unfold":
+            return None
+        if op[0] == "setitem":
+            if op[1] >= len(cur):
+                return None
+            cur[op[1]] = op[2]
+        elif op[0] == "assign":
+            cur = list(op[1])
+        elif op[0] == "append":
+            cur.append(op[1])
+        elif op[0] == "pop":
+            if op[1] >= len(cur):
+                return None
+            cur.pop(op[1])
+        elif op[0] == "reverse":
+            cur.reverse()
+    return cur
+
+
 def shrink(d):
     import copy
 
     if d.get("k", "merge") != "merge":
-        return   # a file of the test data is a case as it is
+        # a file of the test data is a case as it is; its history may get shorter
+        for key in ("edits", "ops"):
+            for i in range(len(d.get(key) or [])):
+                c = copy.deepcopy(d)
+                del c[key][i]
+                yield c
+        return
     n = len(d["parts"])
-    order = flat_order(d["arg"])
-    # flat list argument
-    if d["arg"]["score"] or d["arg"]["shape"][0] != "many" or any(t[0] != "P" for t in d["arg"]["shape"][1]):
+    # ---- a shorter history first: fewer steps, no interleaved views
+    for i in range(len(d.get("edits") or [])):
+        c = copy.deepcopy(d)
+        del c["edits"][i]
+        yield c
+    ops = d["arg"].get("ops") or []
+    for i in range(len(ops)):
+        c = copy.deepcopy(d)
+        del c["arg"]["ops"][i]
+        if final_order(c["arg"]) is not None or any(o[0] == "unfold" for o in c["arg"]["ops"]):
+            fo = final_order(c["arg"])
+            if fo is None or len(set(fo)) == len(fo):
+                yield c
+    for pi in range(n):
+        if d["parts"][pi].get("warm"):
+            c = copy.deepcopy(d)
+            del c["parts"][pi]["warm"]
+            yield c
+    order = final_order(d["arg"])
+    has_edits = bool(d.get("edits"))
+    # flat list argument of the parts that are merged
+    if order is not None and (d["arg"]["score"] or d["arg"]["shape"][0] != "many" or any(t[0] != "P" for t in d["arg"]["shape"][1])):
         c = copy.deepcopy(d)
         c["arg"] = {"score": False, "shape": ["many", [["P", i] for i in order]]}
         yield c
-    if n > 2:
+    if order is not None and not ops and not has_edits and n > 2:
         for drop in range(n):
             c = copy.deepcopy(d)
             keep = [i for i in order if i != drop]
@@ -1521,9 +1590,17 @@ def distribution(descs, results):
     refs["Beam"] = sum(len(p.get("beams", [])) for d in descs for p in d["parts"])
     refs["Fermata(note)"] = sum(len(p.get("fermatas", [])) for d in descs for p in d["parts"])
     late = sum(1 for d in descs if any(p["measures"] and p["measures"][0][0] > 0 for p in d["parts"]))
+    steps = Counter(e[0] + (":" + str(e[2]) if e[0] == "read" else "") for d in descs + files for e in d.get("edits") or [])
+    sops = Counter(o[0] for d in descs for o in d["arg"].get("ops") or [])
+    sops.update(o[0] for d in files for o in d.get("ops") or [])
     return {"modes": dict(modes), "parts_per_case": dict(nparts), "division_tuples": dict(divs.most_common(30)),
             "argument_shapes": dict(shapes), "parts_with_missing_staves": nostaff,
             "classes_of_other_elements": len(classes), "elements_with_references": dict(refs),
             "cases_with_a_part_starting_after_0": late,
+            "cases_with_a_part_history": sum(1 for d in descs + files if d.get("edits")),
+            "parts_built_with_interleaved_views": sum(1 for d in descs for p in d["parts"] if p.get("warm")),
+            "history_steps": dict(steps), "score_history_steps": dict(sops),
+            "end_only_directions_with_staff": sum(len(p.get("endonly", [])) for d in descs for p in d["parts"]),
+            "tuple_arguments": sum(1 for d in descs if d["arg"].get("tuple")),
             "file_cases": dict(Counter(d["via"] for d in files)), "files": len({d["file"] for d in files}),
             "rejected_inputs": sum(1 for r in results if r.get("key") is None)}
